@@ -5,8 +5,11 @@
 package main
 
 import (
+	"bufio"
+	"encoding/hex"
 	"flag"
 	"fmt"
+	"go/parser"
 	"math/rand"
 	"os"
 	"path/filepath"
@@ -25,7 +28,32 @@ var (
 	thorough = flag.Bool("thorough", false, "thorough tier")
 	harness  = flag.String("harness", "/verif/harness", "path of the verifharness module")
 	plugins  = flag.String("plugins", "gostring", "comma separated plugin list (only gostring)")
+	syntax   = flag.Bool("checksyntax", false, "filter mode: read hex-encoded texts (one per line) on stdin, print `ok` or `err <message>` per line (go/parser.ParseExpr)")
 )
+
+// checkSyntax is used by stage 2 of the check: a text that is not even a Go expression is attributed
+// to its op before the stage-2 program is compiled (the compiler stops after a few syntax errors).
+func checkSyntax() {
+	in := bufio.NewReaderSize(os.Stdin, 1<<20)
+	w := bufio.NewWriter(os.Stdout)
+	defer w.Flush()
+	for {
+		line, err := in.ReadString('\n')
+		if h := strings.TrimSpace(line); h != "" || len(line) > 0 {
+			b, herr := hex.DecodeString(h)
+			if herr != nil {
+				fmt.Fprintln(w, "err bad hex")
+			} else if _, perr := parser.ParseExpr(string(b)); perr != nil {
+				fmt.Fprintln(w, "err "+strings.ReplaceAll(strings.ToValidUTF8(perr.Error(), "?"), "\n", " "))
+			} else {
+				fmt.Fprintln(w, "ok")
+			}
+		}
+		if err != nil {
+			return
+		}
+	}
+}
 
 func must(err error) {
 	if err != nil {
@@ -131,6 +159,10 @@ func ptrDepth(v *ty.Val) int {
 
 func main() {
 	flag.Parse()
+	if *syntax {
+		checkSyntax()
+		return
+	}
 	rng := rand.New(rand.NewSource(*seed))
 	n2, extra, cap, nmut, nsub, nwide := 40, 24, 10, 2, 8, 3
 	if *thorough {
